@@ -188,6 +188,64 @@ def format_correspondence(ctx, rng, sgz, desc):
             ctx.corr_fail('Model.Export', f'export {b0} {b1} {e0} {e1} {ns_} {ntr_}', ans, real, dict(desc, patched_code=code))
 
 
+def spec_built_sources(ctx, rng):
+    """export of SGZ files laid out by the harness's own encoder from docs/file-specification.md (what any conformant
+    writer, this release or an earlier one, leaves on disk): trace counts on both sides of multiples of 128, several
+    stored header arrays -- the exported trace headers, geometry and file headers are the original's"""
+    for k in range(ctx.n(6, 60)):
+        n = [(8, 16, 6), (4, 32, 5), (16, 16, 4), (5, 7, 9), (8, 17, 6), (2, 64, 3)][k % 6]
+        arr = gen.cube(rng, n, rare=False)
+        il, xl = segycases.axes(rng, n)
+        plan = mksegy.header_plan(rng, n_fields=int(rng.integers(2, 6)), kinds=['vary', 'vary', 'const', 'vary0'])
+        plan.set_final(n[0] * n[1] - 1)
+        sgy = ctx.path('sb.sgy')
+        dt = int(rng.choice([4000, 2000, 1000]))
+        mksegy.make_segy(sgy, arr, ilines=il, xlines=xl, fmt=5, headers=plan, dt_us=dt, t0=0)
+        src = view.segy_view(sgy)
+        cube = conv.segy_cube(sgy)[0] if isinstance(conv.segy_cube(sgy), tuple) else conv.segy_cube(sgy)
+        q, bs = [(16, (4, 4, 512)), (32, (4, 4, 256)), (8, (4, 4, 1024))][k % 3]
+        lay = spec.Layout(n, bs, q)
+        arrays, consts = {}, {}
+        for c in spec.FIELDS:
+            vals = np.array([h[c] for h in src['headers']], dtype=np.int64)
+            if len(set(vals.tolist())) > 1:
+                arrays[c] = vals.astype(np.int32)
+            elif vals[0] != 0:
+                consts[c] = int(vals[0])
+        sgz, exp = ctx.path('sb.sgz'), ctx.path('sb_exp.sgy')
+        spec.build_file(sgz, lay, spec.version_encode(0, 2, 9, True), il=(il[0], il[1] - il[0]), xl=(xl[0], xl[1] - xl[0]),
+                        z=(0, dt), arrays=arrays, consts=consts, data=spec.encode_data_section(cube, lay),
+                        filehdr=src['filehdr'], hashbytes=bytes(range(1, 21)))
+        desc = {'source': 'SGZ laid out from the specification', 'n': n, 'traces': n[0] * n[1], 'stored_arrays': sorted(arrays),
+                'q': q, 'bs': bs}
+        ctx.case(('spec-built', n, tuple(sorted(arrays)), q), sample=desc)
+        ctx.stats['spec_built_sources'] += 1
+        try:
+            with SgzConverter(sgz) as c:
+                env.quiet(c.convert_to_segy, exp)
+            out = view.segy_view(exp)
+        except Exception as e:  # noqa
+            ctx.fail(f'export of a conformant SGZ file failed: {type(e).__name__}: {str(e)[:120]}', desc)
+            continue
+        probs = []
+        if out['filehdr'] != src['filehdr']:
+            probs.append('textual/binary file header differs')
+        if out['tracecount'] != src['tracecount'] or out['ilines'] is None or list(out['ilines']) != list(src['ilines']) \
+                or list(out['xlines']) != list(src['xlines']):
+            probs.append('geometry / trace count differs')
+        else:
+            for i, (a, b) in enumerate(zip(out['headers'], src['headers'])):
+                if a != b:
+                    d = {f: (a.get(f), b.get(f)) for f in b if a.get(f) != b.get(f)}
+                    probs.append(f'trace header {i} differs: {dict(list(d.items())[:3])}')
+                    break
+            dec = spec.decode_volume(sgz).reshape(-1, n[2])
+            if dec.shape != out['traces'].shape or not np.array_equal(dec.view(np.uint32), out['traces'].view(np.uint32)):
+                probs.append('samples differ from the decode of the SGZ')
+        for p_ in probs:
+            ctx.fail('SEG-Y exported from a conformant SGZ: ' + p_, desc)
+
+
 def run(ctx):
     MODEL['m'] = core.Model()
     try:
@@ -200,6 +258,7 @@ def run_(ctx):
     rng = gen.rng_for(ctx.seed, 'c06')
     for k in range(ctx.n(50, 900)):
         one(ctx, rng, k)
+    spec_built_sources(ctx, gen.rng_for(ctx.seed, 'c06-spec-built'))
 
 
 def replay(ctx, rp):
